@@ -1,9 +1,9 @@
 package socks
 
 import (
-	"bufio"
 	"encoding/binary"
 	"errors"
+	"io"
 	"net"
 	"fmt"
 
@@ -67,10 +67,27 @@ type NegotiationHeader struct {
 	Methods  []byte
 }
 
+// exactReader reads exactly what is asked for, straight from the connection: nothing that belongs
+// to the next protocol message is buffered away, and a field split over several TCP segments is
+// still read completely.
+type exactReader struct {
+	conn net.Conn
+}
+
+func (r exactReader) ReadByte() (byte, error) {
+	var b [1]byte
+	_, err := io.ReadFull(r.conn, b[:])
+	return b[0], err
+}
+
+func (r exactReader) Read(p []byte) (int, error) {
+	return io.ReadFull(r.conn, p)
+}
+
 func SubNegotiationClient(conn net.Conn) (NegotiationHeader, error) {
 	var (
 		header     NegotiationHeader
-		reader     = bufio.NewReader(conn)
+		reader     = exactReader{conn}
 		err        error
 		NumMethods byte
 	)
@@ -114,7 +131,7 @@ func SubNegotiationClient(conn net.Conn) (NegotiationHeader, error) {
 func ReadSocksHeader(conn net.Conn) (SocksHeader, error) {
 	var (
 		header SocksHeader
-		reader = bufio.NewReader(conn)
+		reader = exactReader{conn}
 		err    error
 	)
 
